@@ -402,3 +402,10 @@ Definition stuck_users (N : net) (s : state) : nat := count_running N s true.
 (* take k items, perform the stop actions, run to quiescence *)
 Definition scenario (N : net) (s0 : state) (fuel rot : nat) (cf : bool) (k : option nat) (stops : list label) : state :=
   run N fuel (rot + 7) cf None (apply N stops (run N fuel rot cf k s0)).
+
+(* run a given list of labels; None if one of them is not enabled *)
+Fixpoint run_labels (N : net) (ls : list label) (s : state) : option state :=
+  match ls with
+  | [] => Some s
+  | l :: r => match step N s l with Some s' => run_labels N r s' | None => None end
+  end.
